@@ -150,7 +150,30 @@ def gen_cases(rng, n_cases):
     while len(cases) < n_cases:
         r = rng.random()
         binary = rng.random() < 0.45
-        if r < 0.01:
+        if r < 0.12:
+            # hostile count lines of the Options block (each of the four independently), text and binary
+            b, nv_true, nc_true, counts = solgen.hostile_counts_file(rng, binary)
+            pol = (0, rng.choice(['all', 'while', 'while']), rng.choice(['all', 'while', 'while']), 'all') if rng.random() < 0.8 else solgen.rand_policy(rng)
+            add('hostile-counts-bin' if binary else 'hostile-counts-text', b, rng.choice([nv_true, nv_true, nv_true + 3, 0]),
+                rng.choice([nc_true, nc_true, nc_true + 3, 0]), pol, counts=counts)
+        elif r < 0.16:
+            # binary file cut inside an element of the dual / primal vector: that element is not in the file
+            s0 = solgen.rand_sol(rng, maxn=rng.choice([3, 12]))
+            while not (s0.duals or s0.primals):
+                s0 = solgen.rand_sol(rng, maxn=rng.choice([3, 12]))
+            full = solgen.bin_bytes(s0)
+            s1 = s0.clone(); s1.duals = []; s1.primals = []; s1.objno = None
+            # offset of the dual data = everything before the dual record + its 4-byte length
+            head = solgen.bin_bytes(s1)
+            dstart = len(head) - 16 + 4          # bin_bytes(s1) ends with two empty records (8 bytes each)
+            pstart = dstart + 8 * len(s0.duals) + 4 + 4
+            assert full[dstart - 4:dstart] == struct.pack('<I', 8 * len(s0.duals)) and full[pstart - 4:pstart] == struct.pack('<I', 8 * len(s0.primals))
+            if s0.duals and (not s0.primals or rng.random() < 0.5):
+                k = rng.randrange(len(s0.duals)); cut = dstart + 8 * k + rng.randint(1, 7); avail = {'dual': k, 'primal': 0}
+            else:
+                k = rng.randrange(len(s0.primals)); cut = pstart + 8 * k + rng.randint(1, 7); avail = {'dual': len(s0.duals), 'primal': k}
+            add('truncate-in-vector-bin', full[:cut], s0.nvars, s0.ncons, (0, rng.choice(['all', 'while']), rng.choice(['all', 'while']), 'all'), avail=avail)
+        elif r < 0.17:
             # binary suffix record whose name is not NUL-terminated inside namelen
             s0 = solgen.rand_sol(rng, maxn=3)
             s0.sufs = []
@@ -235,20 +258,27 @@ def oracle(c, line):
     events = parse_events(evs)
     for k, e in enumerate(events):
         vec = None
-        if e[0] == 'dual':
+        if e[0] in ('dual', 'primal'):
             vec = e[1:5]
-            if int(vec[0]) > c['nc']:
-                bad.append(('%s:dual-offer-exceeds-ncons' % fmt, 'handler offered %s dual values, problem has %d constraints' % (vec[0], c['nc'])))
-        elif e[0] == 'primal':
-            vec = e[1:5]
-            if int(vec[0]) > c['nv']:
-                bad.append(('%s:primal-offer-exceeds-nvars' % fmt, 'handler offered %s primal values, problem has %d variables' % (vec[0], c['nv'])))
+            lim, what = (c['nc'], 'constraints') if e[0] == 'dual' else (c['nv'], 'variables')
+            offered_ = int(vec[0])
+            delivered = 0 if vec[3] == '-' else vec[3].count(',') + 1      # ReadNext calls that returned data
+            if offered_ > lim or delivered > lim:
+                bad.append(('%s:%s-offer-exceeds-problem-size' % (fmt, e[0]), 'handler was offered %d and delivered %d %s values, problem has %d %s'
+                            % (offered_, delivered, e[0], lim, what)))
+            if offered_ < 0:
+                bad.append(('%s:%s-negative-count-offered' % (fmt, e[0]), 'handler was offered a vector of Size() = %d (%d values delivered to a while(Size()) loop)'
+                            % (offered_, delivered)))
+            if 'avail' in c and delivered > c['avail'][e[0]]:
+                bad.append(('%s:partial-vector-reported-complete' % fmt if (vec[1] == 'OK' and vec[2] == '0') else '%s:value-not-in-file-delivered' % fmt,
+                            '%s vector: %d values delivered with status %s and Size() = %s, but the file contains only %d complete elements (it is cut inside the next one)'
+                            % (e[0], delivered, vec[1], vec[2], c['avail'][e[0]])))
         elif e[0] == 'suf':
             vec = e[4:8]
         if vec:
             offered, rr, rem = int(vec[0]), vec[1], int(vec[2])
             nitems = 0 if vec[3] == '-' else vec[3].count(',') + 1
-            if rr == 'OK' and nitems + rem != offered:
+            if rr == 'OK' and offered >= 0 and nitems + rem != offered:
                 bad.append(('%s:vector-count-mismatch' % fmt, 'status OK but %d delivered + %d remaining != %d offered' % (nitems, rem, offered)))
             if rr != 'OK' and rem != 0 and rr in ('EarlyEOF', 'BadLine'):
                 bad.append(('%s:failed-vector-still-open' % fmt, 'read failed (%s) but Size() = %d' % (rr, rem)))
@@ -349,7 +379,7 @@ KNOWN_UB_SIG = {
 def run(ck):
     ck.level = 'proof'
     proof_ok, failing = ck.proof_stage('MpVerif.C14.Props', 'MpVerif/C14/Props.lean', 'C14_',
-                                        ['MpVerif/C14/*.lean'], expect_min=19)
+                                        ['MpVerif/C14/*.lean'], expect_min=21)
     ck.log('proof stage: ok=%s failing=%s' % (proof_ok, failing[:12]))
     if ck.tier == 'thorough' and proof_ok:
         bad = ck.leanchecker(['MpVerif.C14.Props'])
